@@ -1433,5 +1433,56 @@ seed("c20-close-returns-before-abort", "C20", "R-close-releases", "conn.go",
 
 	if c.bdatPipe != nil {""", "a failing socket close skips the pipe abort and the Logout")
 
+WIRE_OLD = """			io.TeeReader(rwc.Reader, c.server.Debug),
+			io.MultiWriter(rwc.Writer, c.server.Debug),"""
+WIRE_NEW = """			io.TeeReader(rwc.Reader, printableWriter{c.server.Debug}),
+			io.MultiWriter(rwc.Writer, printableWriter{c.server.Debug}),"""
+seed("c01-debug-writer-mutates-tee-buffer", "C01", "R-stream-layers-readonly", "conn.go", WIRE_OLD, WIRE_NEW,
+  "a debug sanitiser that rewrites octets in place changes what the reader behind io.TeeReader returns",
+  more=[("// Commands are dispatched to the appropriate handler functions.", """type printableWriter struct{ w io.Writer }
+
+func (p printableWriter) Write(b []byte) (int, error) {
+	for i, ch := range b {
+		if ch >= 0x7f {
+			b[i] = '?'
+		}
+	}
+	return p.w.Write(b)
+}
+
+// Commands are dispatched to the appropriate handler functions.""")])
+seed("c05-limiter-rewrites-buffer", "C05", "R-stream-layers-readonly", "lengthlimit_reader.go",
+"""	n, err := r.R.Read(b)""", """	n, err := r.R.Read(b)
+	for i := 0; i < n; i++ {
+		if b[i] == 0 {
+			b[i] = ' '
+		}
+	}""", "the limiter layer replaces NUL octets in the buffer it passes up")
+
+seed("c09-challenge-helper-urlsafe", "C09", "R-auth-challenge", "conn.go",
+"""			encoded = base64.StdEncoding.EncodeToString(challenge)""", """			encoded = encodeSASLChallenge(challenge)""",
+  "the challenge is encoded by a helper that uses the URL-safe alphabet: binary challenges do not decode at the client",
+  more=[("func decodeSASLResponse(s string) ([]byte, error) {", """func encodeSASLChallenge(b []byte) string {
+	if len(b) == 0 {
+		return ""
+	}
+	return base64.URLEncoding.EncodeToString(b)
+}
+
+func decodeSASLResponse(s string) ([]byte, error) {""")])
+seed("c13-lmtp-data-returns-before-reset", "C13", "R-envelope-per-message", "conn.go",
+"""	defer c.reset()
+
+	if c.server.LMTP {
+		c.handleDataLMTP()
+		return
+	}
+""", """	if c.server.LMTP {
+		c.handleDataLMTP()
+		return
+	}
+	defer c.reset()
+""", "an LMTP DATA message ends without reset(): the next message is answered for the earlier recipients as well")
+
 json.dump(S, open(os.path.join(os.path.dirname(os.path.abspath(__file__)), "bank.json"), "w"), indent=1)
 print(len(S), "seeds")
